@@ -223,8 +223,51 @@ pub fn token_seq(f: Fmt, len: usize, mut idx: usize) -> Vec<u8> {
 
 /// Hand-written hostile seeds, including the witnesses of every defect found
 /// during design (D1-D9).
+/// Extra seeds kept in a data file (src/seeds_extra.txt): rare but legal forms of every format.
+fn extra_seeds() -> Vec<Item> {
+    let mut v = vec![];
+    for line in include_str!("seeds_extra.txt").lines() {
+        if line.starts_with('#') || line.len() < 2 {
+            continue;
+        }
+        let fmt = match line.as_bytes()[0] {
+            b'j' => Fmt::Json,
+            b'y' => Fmt::Yaml,
+            b't' => Fmt::Toml,
+            b'm' => Fmt::Msgpack,
+            _ => continue,
+        };
+        let body = line[2..].as_bytes();
+        let mut out = Vec::with_capacity(body.len());
+        let mut i = 0;
+        while i < body.len() {
+            if body[i] == b'\\' && i + 1 < body.len() {
+                match body[i + 1] {
+                    b'n' => { out.push(b'\n'); i += 2; }
+                    b'r' => { out.push(b'\r'); i += 2; }
+                    b't' => { out.push(b'\t'); i += 2; }
+                    b'\\' => { out.push(b'\\'); i += 2; }
+                    b'x' if i + 4 <= body.len() => {
+                        let h = std::str::from_utf8(&body[i + 2..i + 4]).ok().and_then(|h| u8::from_str_radix(h, 16).ok());
+                        match h {
+                            Some(b) => { out.push(b); i += 4; }
+                            None => { out.push(body[i]); i += 1; }
+                        }
+                    }
+                    _ => { out.push(body[i]); i += 1; }
+                }
+            } else {
+                out.push(body[i]);
+                i += 1;
+            }
+        }
+        v.push(Item { bytes: out, class: "seed", fmt: Some(fmt), docs: 0 });
+    }
+    v
+}
+
 pub fn seeds() -> Vec<Item> {
-    let mut v: Vec<Item> = vec![];
+    let mut v: Vec<Item> = extra_seeds();
     let mut add = |b: &[u8], f: Option<Fmt>| v.push(Item { bytes: b.to_vec(), class: "seed", fmt: f, docs: 0 });
     let j = Some(Fmt::Json);
     let y = Some(Fmt::Yaml);
